@@ -175,6 +175,29 @@ CHECKS["C17"] = dict(
     technique="TLA+ heap predicates (small-scope lemma by TLC) + trace validation of real heap snapshots + mutation testing",
     design_ref="DESIGN.md §3.9, §4 C17")
 
+CHECKS["C04"] = dict(
+    level="fault_enumeration",
+    text="WireMutate.tla defines, per field role, the replacement values (-2, -1, 0, 1, boundaries, 2^16, 2^24, 2^31-1) and the structural "
+         "mutations; they are applied to the field maps of the WireShapes.tla vectors (every count / length / code / flag field of every "
+         "message layout) and of the CqlValue.tla cases, segments get mutated header lengths with recomputed checksums, compressed blocks "
+         "mutated prefixes, plus seeded random bytes. Every input goes to every decoding entry point in isolated worker processes: "
+         "recovered panics, fatal runtime errors and hangs (confirmed twice in isolation) are violations. 'All byte strings' is "
+         "necessarily sampled; the systematic part is exhaustive over fields.",
+    note="Trusted: the worker isolation / progress-file attribution; allocations of up to 2 GiB driven by a declared length are not counted "
+         "as faults. TLA+ contributes the field maps and the mutation table, not a state space.",
+    technique="TLA+ field maps + mutation table (TLC) + fault injection into every real decoding entry point",
+    design_ref="DESIGN.md §4 C04")
+CHECKS["C18"] = dict(
+    level="exploration",
+    text="SharedCodec.tla states that a codec has no state: every Return equals F(op, arg) under all interleavings (TLC, stateless config) and "
+         "shows the corrupting interleaving TLC finds when a shared scratch variable exists (non-vacuity). The harness defines F by running "
+         "~7500 encode/decode operations sequentially on shared codec instances, then runs them from 16-32 goroutines under the race "
+         "detector; every concurrent return is compared with F in Go and a sample is validated by TLC (SharedCodecTrace.tla); race reports "
+         "are violations. Schedules are sampled, not enumerated.",
+    note="Trusted: the Go race detector for the data-race clause (a TLA+ model cannot see memory-level races); digests of results.",
+    technique="TLA+ stateless-codec spec + trace validation of concurrent real executions + Go race detector",
+    design_ref="DESIGN.md §3.9, §4 C18")
+
 NOT_YET = {}
 
 
